@@ -45,6 +45,9 @@ theorem poolCount_of_noTicket (k : Nat) (l : List FrontMsg) (h : ∀ m ∈ l, ms
     rw [h x List.mem_cons_self, ih (fun m hm => h m (List.mem_cons_of_mem _ hm))]
     simp
 
+theorem ackChans_mgr (st : Core) (id : Id) : (st.ackChans id).mgr = st.mgr := rfl
+theorem ackChans_dead (st : Core) (id : Id) : (st.ackChans id).dead = st.dead := rfl
+
 /-! ### `buildUnsubscribeMessage` / `unsubscribe` -/
 
 theorem unsubscribe_spec (m : Mgr) (rid : Id) (s : SubId) (m' : Mgr) (uid : Id) (c : ChanId) (um : Text)
@@ -149,9 +152,9 @@ theorem processNotification_count (k : Nat) (st : Core) (m : Text) (p : Option T
     · rfl
     · split <;> simp [coreCount, Core.modChan, Mgr.removeNotificationHandler]
 
-theorem abandonedSubscribe_count (k : Nat) (st : Core) (c : ChanId) (rid : Id) (s : SubId) :
-    coreCount k (abandonedSubscribe st c rid s).1 ≤ coreCount k st ∧
-    compCount k (abandonedSubscribe st c rid s).2 = 0 ∧ NoTicketMsgs (abandonedSubscribe st c rid s).2 := by
+theorem abandonedSubscribe_count (k : Nat) (st : Core) (c : ChanId) (rid : Id) (s : SubId) (t : Ticket) :
+    coreCount k (abandonedSubscribe st c rid s t).1 ≤ coreCount k st ∧
+    compCount k (abandonedSubscribe st c rid s t).2 = 0 ∧ NoTicketMsgs (abandonedSubscribe st c rid s t).2 := by
   unfold abandonedSubscribe
   split
   · rename_i st' msg h
@@ -201,7 +204,7 @@ theorem completeSubscribe_count (k : Nat) (st : Core) (r : Response) (uid : Id) 
         intro m hm; simp [queuedMsgs_completeIfAlive] at hm
       | some m' =>
         obtain ⟨_, _, e⟩ := insertSubscription_spec _ _ _ _ _ _ _ hins
-        have hcc : coreCount k ({ st with mgr := m' }.newChan (.sub s) t.op).1 = coreCount k st := by
+        have hcc : coreCount k ({ st with mgr := m' }.newChan (.sub s) t.op uid).1 = coreCount k st := by
           simp [coreCount, Core.newChan, e, reqCount, kindOp]
         simp only
         by_cases hal : st.alive t = true
@@ -210,7 +213,7 @@ theorem completeSubscribe_count (k : Nat) (st : Core) (r : Response) (uid : Id) 
           · simp only [compCount, hcc]; omega
           · intro m hm; simp [queuedMsgs] at hm
         · simp only [hal]
-          obtain ⟨a, b, c⟩ := abandonedSubscribe_count k ({ st with mgr := m' }.newChan (.sub s) t.op).1 st.chans.length r.id s
+          obtain ⟨a, b, c⟩ := abandonedSubscribe_count k ({ st with mgr := m' }.newChan (.sub s) t.op uid).1 st.chans.length r.id s t
           exact ⟨by simp only [Bool.false_eq_true, if_false]; omega, by simpa using c⟩
 
 theorem completePendingCall_spec (m : Mgr) (id : Id) (m' : Mgr) (t : Option Ticket)
@@ -267,7 +270,7 @@ theorem processSingleResponse_count (k : Nat) (st st' : Core) (r : Response) (ef
         obtain ⟨e1, e2⟩ := h
         subst e1 e2 e
         have h1 := reqCount_aerase_le k r.id st.mgr.requests
-        exact ⟨by simp only [coreCount, compCount]; omega, noTicket_nil⟩
+        exact ⟨by simp only [coreCount, compCount, ackChans_mgr]; omega, noTicket_nil⟩
       | some t =>
         simp [hc] at h
         obtain ⟨e1, e2⟩ := h
@@ -872,7 +875,7 @@ theorem completeSubscribe_shrinks (st : Core) (r : Response) (uid : Id) (t : Tic
       | none => exact shrinks_refl _
       | some m' =>
         obtain ⟨_, _, e⟩ := insertSubscription_spec _ _ _ _ _ _ _ hins
-        have h0 : Shrinks st ({ st with mgr := m' }.newChan (.sub s) t.op).1 := by
+        have h0 : Shrinks st ({ st with mgr := m' }.newChan (.sub s) t.op uid).1 := by
           intro p hp
           simp only [newChan_mgr, e] at hp
           rcases List.mem_cons.1 hp with h | h
@@ -884,7 +887,7 @@ theorem completeSubscribe_shrinks (st : Core) (r : Response) (uid : Id) (t : Tic
         · simp only [hal]
           unfold abandonedSubscribe
           cases hb : buildUnsubscribeMessage
-              (({ st with mgr := m' }.newChan (.sub s) t.op).1.modChan st.chans.length
+              (({ st with mgr := m' }.newChan (.sub s) t.op uid).1.modChan st.chans.length
                 (fun ch => { dropReceiver ch with hasKind := false })) r.id s with
           | none => exact fun p hp => h0 p hp
           | some x =>
@@ -903,10 +906,11 @@ theorem processSingleResponse_shrinks (st st' : Core) (r : Response) (effs : Lis
     | some x =>
       obtain ⟨m', t⟩ := x
       obtain ⟨hl, e⟩ := completePendingCall_spec _ _ _ _ hc
-      have hst : st' = { st with mgr := m' } := by
-        cases t <;> simp [hc] at h <;> exact h.1.symm
-      subst hst e
+      have hst : st'.mgr = m' := by
+        cases t <;> simp [hc] at h <;> rw [← h.1] <;> rfl
+      subst e
       intro p hp
+      rw [hst] at hp
       exact Or.inl (mem_aerase p r.id _ hp).1
   | pendingSub =>
     simp only [hs] at h
@@ -1197,8 +1201,8 @@ theorem mem_completeIfAlive (st : Core) (t t' : Ticket) (o o' : Outcome)
   · rename_i ha; simp [completions] at h; exact ⟨h.1, h.2, ha⟩
   · simp [completions] at h
 
-theorem abandonedSubscribe_completions (st : Core) (c : ChanId) (rid : Id) (s : SubId) :
-    completions (abandonedSubscribe st c rid s).2 = [] := by
+theorem abandonedSubscribe_completions (st : Core) (c : ChanId) (rid : Id) (s : SubId) (t : Ticket) :
+    completions (abandonedSubscribe st c rid s t).2 = [] := by
   unfold abandonedSubscribe
   split <;> simp [completions]
 
@@ -1464,7 +1468,7 @@ theorem completeSubscribe_hasCall (st : Core) (r : Response) (uid : Id) (t0 : Ti
       | none => exact hc
       | some m' =>
         obtain ⟨h1, _, e⟩ := insertSubscription_spec _ _ _ _ _ _ _ hins
-        have h0 : HasCall ({ st with mgr := m' }.newChan (.sub s) t0.op).1 id t := by
+        have h0 : HasCall ({ st with mgr := m' }.newChan (.sub s) t0.op uid).1 id t := by
           unfold HasCall
           simp only [newChan_mgr, e]
           exact hasCall_insert _ _ _ _ _ hc h1
@@ -1474,7 +1478,7 @@ theorem completeSubscribe_hasCall (st : Core) (r : Response) (uid : Id) (t0 : Ti
         · simp only [hal]
           unfold abandonedSubscribe
           cases hb : buildUnsubscribeMessage
-              (({ st with mgr := m' }.newChan (.sub s) t0.op).1.modChan st.chans.length
+              (({ st with mgr := m' }.newChan (.sub s) t0.op uid).1.modChan st.chans.length
                 (fun ch => { dropReceiver ch with hasKind := false })) r.id s with
           | none => exact h0
           | some x =>
@@ -1493,10 +1497,11 @@ theorem processSingleResponse_hasCall (st st' : Core) (r : Response) (effs : Lis
     | some x =>
       obtain ⟨m', t0⟩ := x
       obtain ⟨hl, e⟩ := completePendingCall_spec _ _ _ _ hcp
-      have hst : st' = { st with mgr := m' } := by
-        cases t0 <;> simp [hcp] at h <;> exact h.1.symm
-      subst hst e
+      have hst : st'.mgr = m' := by
+        cases t0 <;> simp [hcp] at h <;> rw [← h.1] <;> rfl
+      subst e
       unfold HasCall
+      rw [hst]
       simp only
       rw [alookup_aerase_ne id r.id _ hne']; exact hc
   | pendingSub =>
@@ -1628,7 +1633,7 @@ theorem completeSubscribe_dead (st : Core) (r : Response) (uid : Id) (t : Ticket
           simp only [Bool.false_eq_true, if_false]
           unfold abandonedSubscribe
           cases hb : buildUnsubscribeMessage
-              (({ st with mgr := m' }.newChan (.sub s) t.op).1.modChan st.chans.length
+              (({ st with mgr := m' }.newChan (.sub s) t.op uid).1.modChan st.chans.length
                 (fun ch => { dropReceiver ch with hasKind := false })) r.id s with
           | none => rfl
           | some x =>
@@ -1646,9 +1651,7 @@ theorem processSingleResponse_dead (st st' : Core) (r : Response) (effs : List E
     | none => simp [hcp] at h
     | some x =>
       obtain ⟨m', t0⟩ := x
-      have hst : st' = { st with mgr := m' } := by
-        cases t0 <;> simp [hcp] at h <;> exact h.1.symm
-      subst hst; rfl
+      cases t0 <;> simp [hcp] at h <;> rw [← h.1] <;> rfl
   | pendingSub =>
     simp only [hs] at h
     cases hcp : st.mgr.completePendingSubscription r.id with
